@@ -123,5 +123,21 @@ CHECKS["C02"] = {
             "whole state because registrations are fixed per configuration; for == raising only agreement between "
             "mechanisms is required",
 }
+CHECKS["C08"] = {
+    "category": "model_checking",
+    "technique": MC + " (history BFS over graph mutations with canonical graph+notifier-fingerprint dedup; reachability interpreter as oracle; probe of every object after every history)",
+    "text": "18 observe expressions (series, '.'/':' links, list/dict/set items, nested containers, parallel branches, "
+            "lazy default, metadata filter as last and as intermediate link, anytrait, container-change targets) on "
+            "a pool of 3 interlinked objects: every history up to depth 4 (5 thorough) over the expression's event "
+            "menu (link reassignment incl. self => cycles, every list mutator incl. duplicates, extended-slice "
+            "delete, *=, equal and unequal whole-list reassignment, dict set/del, set add/discard, default "
+            "materialisation, add_trait), registration before or after the history; the step itself must deliver "
+            "exactly the change event the documented semantics prescribe (none for ':' links) and afterwards "
+            "changing each candidate trait of each object must call the handler exactly once iff a from-scratch "
+            "interpreter of the expression over the live graph finds it reachable, with event.object/name "
+            "identifying what changed.",
+    "note": "dispatch='same'; pool of 3 (+ lazy defaults); depth 4/5; dedup key = graph shape + (kind, ref-count) of "
+            "every notifier on every object, trait and container, so merged states have equal hook state",
+}
 
 NOT_CLAIMED = {}
